@@ -11,6 +11,7 @@ makes the path indeterminate (nothing asserted until the next successful save).
 """
 import io
 import os
+import json
 import shutil
 import tempfile
 
@@ -130,6 +131,8 @@ class Machine:
         self.log = log
         self.root = tempfile.mkdtemp(prefix='verif-c19-')
         self.fs = seams.SimFS()
+        self.fs.write_through = True
+        self.loaded = {}     # sid -> (object returned by load, snapshot at load time)
         self.objs = {}       # sid -> TT
         self.snaps = {}      # sid -> snapshot (kept current for originals)
         self.clones = {}     # sid -> (clone, snapshot at clone time)
@@ -137,6 +140,7 @@ class Machine:
         self.bufs = {}       # name -> BytesIO
         self.viol = []
         self.trace = []
+        self.trace_file = None
 
     def close(self):
         shutil.rmtree(self.root, ignore_errors=True)
@@ -167,6 +171,15 @@ class Machine:
         if r is not None:
             self.report('ROUNDTRIP', op, r[0], 'loaded object differs from the object at save time: ' + r[1])
 
+    def check_loaded(self, op):
+        # an object returned by load() is independent of the file afterwards: overwriting or tearing the file must
+        # not reach into it
+        for sid, (y, snap) in list(self.loaded.items()):
+            r = check_unchanged(y, snap)
+            if r is not None:
+                self.report('LOAD-INDEPENDENT', op, r[0], 'object loaded at step %s changed afterwards: %s' % (sid, r[1]))
+                del self.loaded[sid]
+
     def check_clones(self, op):
         for sid, (c, snap) in list(self.clones.items()):
             r = check_unchanged(c, snap)
@@ -179,6 +192,9 @@ class Machine:
         op = st['op']
         p = st['p']
         stats = self.res['stats']
+        if self.trace_file:
+            with open(self.trace_file, 'w') as fh:
+                json.dump(self.trace + [st], fh, default=str)
         if op != 'create':
             if st['x'] not in self.objs:
                 self.log.add('skip', st['sid'], op)
@@ -190,6 +206,7 @@ class Machine:
         x = self.objs.get(st.get('x'))
         getattr(self, 'op_' + op)(st, p, x)
         self.check_clones(op)
+        self.check_loaded(op)
 
     def op_create(self, st, p, x):
         try:
@@ -349,6 +366,13 @@ class Machine:
             else:
                 self.compare_loaded('load', y, m)
                 self.key('load', y if isinstance(y, TT) else None, 'none', 'ok')
+                if isinstance(y, TT) and not p['name'].startswith('buf:'):
+                    try:
+                        self.loaded[st['sid']] = (y, take_snap(y))
+                        if len(self.loaded) > 6:
+                            self.loaded.pop(next(iter(self.loaded)))
+                    except Exception:
+                        pass
         self.log.add('load', st['sid'], p['name'], type(exc).__name__ if exc else gen.cores_sha(y.cores) if isinstance(y, TT) else '?')
 
     def op_copy(self, st, p, x):
@@ -512,6 +536,7 @@ def run_one(rng, tier, res, opts):
     length = rng.randint(lo, hi)
     log = core.EventLog()
     M = Machine(res, log)
+    M.trace_file = opts.get('_trace_file')
     try:
         with seams.Storage(M.fs):
             for k in range(length):
@@ -532,6 +557,15 @@ def finish(M, res, log):
     for k, v in M.fs.stats.items():
         core.bump(res['stats'], k, v)
     res['digest'] = log.digest()
+
+
+def crash_violation(rng, tier, opts, signum):
+    tf = opts.get('_trace_file')
+    with open(tf) as fh:
+        trace = json.load(fh)
+    op = trace[-1]['op'] if trace else '?'
+    return core.violation(PROP, 'CRASH', op, 'signal%d' % signum, 'the interpreter was killed by signal %d during this history' % signum,
+                          {'trace': [{k: w for k, w in st.items() if not k.startswith('_')} for st in trace]})
 
 
 _LAST = {'digest': None}
